@@ -1339,6 +1339,105 @@ def inband_worker(job):
     return acc
 
 
+# ------------------------------------------------------------------ drain() on a process whose stdin is fed by a redirect
+def redirect_drain_case(source, ending, k):
+    """stdin of a process is redirected from a source that is still open (a StreamReader that has not reached EOF,
+    the stdout of another process, an async file whose read suspends); the application awaits stdin.drain();
+    after k packet deliveries the channel goes away (abort, close, peer closes, connection lost): drain()
+    returns or fails, it does not wait for ever"""
+    loop = P.fresh(0)
+    P.install_wire_labels()
+    viol = []
+    try:
+        async def handler(process):
+            if process.command == 'src':
+                process.stdout.write(b'x' * 40)
+                await process.stdin.read()
+            else:
+                await process.stdin.read()
+        pair = P.Pair(loop, sopts=dict(process_factory=handler, encoding=None, window=64, max_pktsize=32))
+        pair.handshake()
+        st = {}
+
+        class AFile:
+            async def read(self, n=-1):
+                st['afile_fut'] = loop.create_future()
+                return await st['afile_fut']
+
+            async def close(self):
+                pass
+
+        async def client():
+            if source == 'stream-reader':
+                rd = asyncio.StreamReader()
+                rd.feed_data(b'y' * 50)
+                src = rd
+            elif source == 'process':
+                st['p0'] = await pair.c.create_process('src', encoding=None)
+                src = st['p0'].stdout
+            else:
+                src = AFile()
+            p = await pair.c.create_process('sink', stdin=src, encoding=None)
+            st['p'] = p
+            await p.stdin.drain()
+        t = loop.create_task(client())
+        steps = 0
+        while steps < k:
+            loop.quiesce()
+            opts = [x for x in (pair.st, pair.ct) if x in loop.deliverable()]
+            if not opts:
+                break
+            P.deliver_packet(loop, opts[0])
+            steps += 1
+        loop.quiesce()
+        p = st.get('p')
+        if p is not None:
+            if ending == 'abort':
+                p.channel.abort()
+            elif ending == 'close':
+                p.close()
+            elif ending == 'peer-close':
+                for s_ in pair.s._channels.values():
+                    s_.abort()
+            else:
+                loop.cut(pair.ct)
+            loop.flush_all()
+            if not t.done():
+                viol.append(('drain-hangs', 'stdin.drain() still pending after %s (%d deliveries before it); stdin fed from %s' % (ending, steps, source)))
+        if loop.unretrieved():
+            viol.append(('loop-exception', repr(loop.exc_log[0].get('exception') or loop.exc_log[0].get('message'))[:200]))
+        if not t.done():
+            t.cancel()
+            f = st.get('afile_fut')
+            if f is not None and not f.done():
+                f.cancel()
+            try:
+                loop.flush_all()
+            except Livelock:
+                pass
+        return viol, steps
+    except Livelock as exc:
+        return [('livelock', str(exc))], 0
+    finally:
+        P.done(loop)
+
+
+def redirect_drain_worker(job):
+    acc = core.Acc()
+    for case in job:
+        viol, steps = redirect_drain_case(*case)
+        acc.add(core.digest(('redirect-drain',) + tuple(case)), transitions=steps + 1,
+                sample={'drain_with_redirected_stdin': dict(zip(('source', 'ending', 'deliveries_before'), case))} if case == ('stream-reader', 'abort', 6) else None)
+        for k_, d in viol:
+            acc.violation('process:%s:redirected-stdin:%s:%s' % (k_, case[0], case[1]), '%s ; case=%r' % (d, case), {'kind': 'redirect-drain', 'case': list(case)})
+    return acc
+
+
+def redirect_drain_jobs():
+    cases = [(src, end, k) for src in ('stream-reader', 'process', 'async-file') for end in ('abort', 'close', 'peer-close', 'cut') for k in range(0, 16)]
+    return [cases[i::16] for i in range(16)]
+
+
 def main(tier, seed):
     t0 = core.now()
     os.makedirs(SCRATCH, exist_ok=True)
@@ -1359,6 +1458,7 @@ def main(tier, seed):
     acc.merge(core.pmap(drain_worker, [0]))
     acc.merge(core.pmap(drain2_worker, drain2_jobs(tier)))
     acc.merge(core.pmap(inband_worker, inband_jobs(tier), chunksize=2))
+    acc.merge(core.pmap(redirect_drain_worker, redirect_drain_jobs()))
     shutil.rmtree(SCRATCH, ignore_errors=True)
     rule = ('(a) 7 byte streams + a 3-window stream + a multi-byte text stream x 15 read-call menus (read n / -1 / 0, '
             'readexactly, readline, readuntil with one, several and regex separators incl. overlapping prefixes) x '
@@ -1394,6 +1494,8 @@ def replay(rep):
                 for k, d in obs['viol']:
                     full.violation(k, d, r)
         acc = full
+    elif r['kind'] == 'redirect-drain':
+        acc = redirect_drain_worker([tuple(r['case'])])
     elif r['kind'] == 'inband':
         acc = core.Acc()
         for c, _b in inband_jobs('thorough'):
